@@ -38,7 +38,10 @@ class RayGenerator:
                 raise ValueError('Aperture type cannot be "imageFNO" for '
                                  'telecentric object space.')
 
-            sin = self.optic.aperture.value
+            # NA = n sin(theta) in the object-space medium (as in Paraxial.EPD)
+            n0 = self.optic.object_surface.material_post.n(
+                self.optic.primary_wavelength)
+            sin = self.optic.aperture.value / n0
             z = np.sqrt(1 - sin**2) / sin + z0
             z1 = np.full_like(Px, z)
             x1 = Px * vx + x0
